@@ -301,7 +301,7 @@ def layouts(depth: int):
 
 def names_for(policy: str, common, rc, tc):
     """container names of the three chains + leaf-name prefix"""
-    if policy == "neutral":
+    if policy in ("neutral", "reuse"):
         return ([f"k{i+1}" for i in range(len(common))], [f"c{i+1}" for i in range(len(rc))],
                 [f"t{i+1}" for i in range(len(tc))])
     if policy == "prefix":
